@@ -7,7 +7,9 @@ var evalCommon = []string{"evaluator/common.go"}
 func init() {
 	register(Check{
 		ID: "C01", Title: "Expressions evaluate as the language definition prescribes", Level: "model_checking",
-		Units: []Unit{evalUnit([]string{"evaluator/common.go", "evaluator/c01.go"},
+		Units: []Unit{evalUnit([]string{"evaluator/common.go", "evaluator/c01.go", "evaluator/c09.go"},
+			Harness{Fn: "ZZC09Alias", Expect: []string{"alias-ok", "witness:end"}},
+			Harness{Fn: "ZZC09Fresh", Expect: []string{"fresh-ok", "witness:end"}},
 			Harness{Fn: "ZZC01Expr", Quick: p("D", 1), Thorough: p("D", 2), ThoroughBudget: 25 * time.Minute, Expect: []string{"expr-ok", "witness:end"}, Cross: true},
 			Harness{Fn: "ZZC01Pairs", Expect: []string{"pair", "expr-ok", "witness:end"}},
 			Harness{Fn: "ZZC01Args", Expect: []string{"args-ok", "witness:end"}},
@@ -36,6 +38,7 @@ func init() {
 			Harness{Fn: "ZZC12Iter", Quick: p("K", 3), Thorough: p("K", 4), Expect: []string{"iter-ok", "witness:end"}},
 			Harness{Fn: "ZZC10Structure", Quick: p("D", 2, "L0", 1, "L1", 1, "L2", 1), Thorough: p("D", 2, "L0", 1, "L1", 2, "L2", 1, "DECLFIRST", 1), ThoroughBudget: 25 * time.Minute, Expect: []string{"structure-ok", "witness:end"}},
 			Harness{Fn: "ZZC10Range", Quick: p("U", 3), Thorough: p("U", 5), Expect: []string{"range-ok", "zero-step", "witness:end"}, Cross: true},
+			Harness{Fn: "ZZC10LoopExit", Expect: []string{"loopexit-ok", "witness:end"}},
 			Harness{Fn: "ZZC10Funcs", Quick: p("D", 2, "L0", 1, "L1", 1, "L2", 1, "R", 1), Thorough: p("D", 2, "L0", 2, "L1", 1, "L2", 1, "R", 2), ThoroughBudget: 25 * time.Minute, Expect: []string{"funcs-f", "funcs-g", "witness:end"}},
 		)},
 		Assumptions: []string{
@@ -189,9 +192,10 @@ func init() {
 	})
 	register(Check{
 		ID: "C02", Title: "Accepted programs never go wrong (type soundness)", Level: "model_checking",
-		Units: []Unit{evalUnit([]string{"evaluator/common.go", "evaluator/c02.go", "evaluator/c04.go", "evaluator/c08.go", "evaluator/c09.go"},
+		Units: []Unit{evalUnit([]string{"evaluator/common.go", "evaluator/c02.go", "evaluator/c04.go", "evaluator/c05.go", "evaluator/c08.go", "evaluator/c09.go"},
 			Harness{Fn: "ZZC02Audit", Expect: []string{"audit-ok", "witness:end"}},
 			Harness{Fn: "ZZC02Assert", Expect: []string{"assert-ok", "assert-panics", "witness:end"}},
+			Harness{Fn: "ZZC05Returns", Quick: p("RD", 1, "RK", 3), Thorough: p("RD", 1, "RK", 3), Expect: []string{"returns-rejected", "returns-accepted", "witness:end"}},
 			Harness{Fn: "ZZC02Builtins", Expect: []string{"builtin-rand", "builtin-print", "builtin-font", "builtin-poly", "witness:end"}, MaxInstr: 5_000_000},
 			Harness{Fn: "ZZC02Primitives", Expect: []string{"repeat", "concat", "fromany", "zero", "witness:end"}},
 			Harness{Fn: "ZZC02Programs", Expect: []string{"program-ok", "witness:end"}},
